@@ -84,6 +84,8 @@ def run(ctx):
         src += '  write(s); write(\'|\'); writeln(gs); write(s is byte[]); write(\'|\');\n'
         exp += data + b'|' + data + b'\n' + data + b'|'
         if n:
+            src += '  const int[] ci = %s; write(ci[0] is byte); const bool[] cq = [%s]; if (cq[0]) { write(\'q\'); }\n' % (arr, ', '.join('true' if b else 'false' for b in data[:9]))
+            exp += bytes([data[0]]) + (b'q' if data[0] else b'')
             src += '  const byte[] cb = %s; byte[] mb = %s; write(cb); write(\'|\'); write(mb); mb[0] = \'!\'; writeln(mb);\n' % (arr, arr)
             exp += data + b'|' + data + b'!' + data[1:] + b'\n'
             src += '  byte vb[%d]; for (int i = 0; i < vb.length; i += 1) { vb[i] = mb[i]; } write(vb); write(\'|\');\n' % n
